@@ -11,12 +11,25 @@ import (
 
 func init() {
 	// b64 <hex>: util.DecodeAnyBase64 on the bytes
+	// b64 <text>: the auto-detecting decoder, called twice: on a fresh slice, and on a REUSED buffer (same address, and for
+	// consecutive texts of equal length the same length, with different content — what bufio.Scanner.Bytes() hands out): a
+	// result that depends on where the text lives rather than on the text is reported as "differ"
 	ops["b64"] = func(a []string) string {
-		b, err := util.DecodeAnyBase64(unhx(a[0]))
-		if err != nil {
-			return "err"
+		in := unhx(a[0])
+		res := func(b []byte, err error) string {
+			if err != nil {
+				return "err"
+			}
+			return "ok " + hx(b)
 		}
-		return "ok " + hx(b)
+		fresh := res(util.DecodeAnyBase64(in))
+		if len(in) <= len(b64Reused) {
+			n := copy(b64Reused[:], in)
+			if again := res(util.DecodeAnyBase64(b64Reused[:n:n])); again != fresh {
+				return "differ reused-buffer " + again + " fresh " + fresh
+			}
+		}
+		return fresh
 	}
 	// b64go <enc> <hex>: Go's own decoder (validates the Lean model of encoding/base64)
 	ops["b64go"] = func(a []string) string {
@@ -42,6 +55,8 @@ func init() {
 	}
 	gens["C14"] = genC14
 }
+
+var b64Reused [8192]byte
 
 // 'A' (sextet 0) and 'B' (sextet 1: non-zero trailing bits) both stand for the alphanumeric class
 var b64Reps = []byte{'A', 'B', '+', '/', '-', '_', '=', '\n', '\r', ' ', '!'}
@@ -73,6 +88,27 @@ func genC14(tier string, r *rng) {
 	}
 	for l := 0; l <= maxLen; l++ {
 		rec(make([]byte, 0, l), l)
+	}
+	// EVERY octet value in front of, behind and inside valid texts of each encoding; the multi-octet marks editors and
+	// transports add (UTF-8 / UTF-16 byte order marks, zero-width space, NBSP, NEL, form feed, NUL): none of them is
+	// part of any RFC 4648 text, CR and LF apart
+	{
+		payloads := []string{"QUJD", "QUI=", "QQ==", "QUI", "-_-_", "+/+/", ""}
+		for _, p := range payloads {
+			for c := 0; c < 256; c++ {
+				emit("b64", hx(append([]byte{byte(c)}, p...)))
+				emit("b64", hx(append([]byte(p), byte(c))))
+				if len(p) >= 2 {
+					emit("b64", hx([]byte(p[:2]+string([]byte{byte(c)})+p[2:])))
+				}
+			}
+			for _, m := range []string{"\xef\xbb\xbf", "\xef\xbb", "\xfe\xff", "\xff\xfe", "\xe2\x80\x8b", "\xc2\xa0", "\xc2\x85", "\x0c", "\x00", "\xef\xbb\xbf\xef\xbb\xbf", "\t", " ", "\x1a"} {
+				emit("b64", hx([]byte(m+p)))
+				emit("b64", hx([]byte(p+m)))
+				emit("b64", hx([]byte(m+p+m)))
+				emit("b64jwt", hx([]byte(m+p)))
+			}
+		}
 	}
 	// random strings over the full byte alphabet and over the base64-ish alphabet
 	nr := 20000
